@@ -76,6 +76,7 @@ class P(Prop):
         "Labeling State and extra columns, headers may differ between files) and 0-3 native-Percolator or mokapot result "
         "files (.txt tab / .csv comma, 0-9 rows) over 6 raw-file names with underscores, 8 modified sequences, scans 1-4 "
         "with leading zeros / plus sign, duplicate keys within and across result files, MBR rows, rare malformed inputs "
+        "(12 % of the cases exercise parse_andromeda_psmid_and_peptide alone on identifiers built from 14 tokens) "
         "(bad PSM id, missing column, short row, empty file); non-trivial = non-empty results and at least one rewritten "
         "and one dropped-or-MBR row; distinct by sha1 of the case"
     )
@@ -87,7 +88,15 @@ class P(Prop):
     ]
 
     # ------------------------------------------------------------------ generation
+    ID_TOKENS = ["", "a", "raw", "1", "07", "+3", "-2", "x1", "1x", "+", "-", "12345678901234567890", "r.2", "0"]
+    PEPT_STRINGS = ["-.AAM[16]K.-", "-.[42]M[16]K.-", "ab", "", "-.M[16]M[16].-", "[42]", "-.M[1[42]6]K.-", "-.M[16.-",
+                    "-.[42][42]K.-", "K.AAM(ox)K.A", "-.AM[16.-", "abc", "-.M[16][42].-"]
+
     def gen_case(self, rng, tier):
+        if rng.random() < 0.12:
+            # the identifier parser alone (malformed identifiers included)
+            psmid = "_".join(rng.choice(self.ID_TOKENS) for _ in range(rng.randint(1, 6)))
+            return {"psmid": psmid, "peptide": rng.choice(self.PEPT_STRINGS)}
         nfiles = rng.choice([1, 1, 2, 2, 3])
         raws = rng.sample(RAWS, rng.randint(2, 4))
         res_raws = [r for r in raws if rng.random() < 0.8] or raws[:1]
@@ -268,6 +277,20 @@ class P(Prop):
         return None
 
     def run_impl(self, case):
+        if "psmid" in case:
+            from picked_group_fdr.parsers import percolator
+
+            pept = case["peptide"]
+            try:
+                # what parse_percolator_out_file_to_dict hands over: row[pept_col][2:-2]
+                raw, scan, seq = percolator.parse_andromeda_psmid_and_peptide(case["psmid"], pept[2:-2])
+            except IndexError:
+                return {"err": "bad_psmid"}
+            except ValueError as e:
+                if "invalid literal for int" in str(e):
+                    return {"err": "bad_scan"}
+                raise
+            return {"raw": raw, "scan": scan, "modseq": seq}
         from picked_group_fdr.pipeline import update_evidence_from_pout as u
 
         d = tempfile.mkdtemp(prefix="c15_")
@@ -290,6 +313,8 @@ class P(Prop):
 
     # ------------------------------------------------------------------ the model
     def model_request(self, case, impl_out):
+        if "psmid" in case:
+            return {"op": "psmid", "psmid": case["psmid"], "peptide": case["peptide"]}
         raw = []
         for r in case["results"]:
             rows = [list(r["rows"][0])]
@@ -312,7 +337,7 @@ class P(Prop):
         return impl_out
 
     # ------------------------------------------------------------------ the property, stated directly
-    PSMID = re.compile(r"^(.*)_([+-]?[0-9]+)_[^_]*_[^_]*$", re.S)
+    PSMID = re.compile(r"^(?:(.*)_)?([+-]?[0-9]+)_[^_]*_[^_]*$", re.S)
 
     def _join_table(self, case):
         """(raw, scan, modseq) -> (score, pep) written strings; later rows win.  None if a result file is malformed."""
@@ -342,7 +367,7 @@ class P(Prop):
                 pept = row[ix["pept"]]
                 seq = pept[2:-2] if len(pept) >= 4 else ""
                 seq = seq.replace("[42]", "(ac)").replace("M[16]", "M(ox)")
-                table[(m.group(1), int(m.group(2)), seq)] = (written(row[ix["score"]]), written(row[ix["pep"]]))
+                table[(m.group(1) or "", int(m.group(2)), seq)] = (written(row[ix["score"]]), written(row[ix["pep"]]))
         return table
 
     def _expected(self, case):
@@ -387,6 +412,14 @@ class P(Prop):
     def oracle(self, case, impl_out):
         if not isinstance(impl_out, dict):
             return "no output: %r" % (impl_out,)
+        if "psmid" in case:
+            m = self.PSMID.match(case["psmid"])
+            if m is None:
+                return None if "err" in impl_out else "malformed PSM id %r accepted: %r" % (case["psmid"], impl_out)
+            pept = case["peptide"]
+            seq = (pept[2:-2] if len(pept) >= 4 else "").replace("[42]", "(ac)").replace("M[16]", "M(ox)")
+            want = {"raw": m.group(1) or "", "scan": int(m.group(2)), "modseq": seq}
+            return None if impl_out == want else "PSM id %r read as %r, expected %r" % (case["psmid"], impl_out, want)
         if impl_out.get("published_despite_error"):
             return "the step raised %s but an output file exists under the final name" % impl_out.get("err")
         exp = self._expected(case)
@@ -425,12 +458,16 @@ class P(Prop):
         return st
 
     def nontrivial(self, case, impl_out):
+        if "psmid" in case:
+            return isinstance(impl_out, dict) and "raw" in impl_out and "_" in impl_out["raw"]
         st = self._row_stats(case, impl_out)
         nres = sum(max(0, len(r["rows"]) - 1) for r in case["results"])
         return nres > 0 and st["rewritten"] >= 1 and (st["dropped"] >= 1 or st["unchanged"] >= 1)
 
     def features(self, case, impl_out):
-        f = ["evidence_files=%d" % len(case["evidence"]), "result_files=%d" % len(case["results"])]
+        if "psmid" in case:
+            return ["kind=psmid", "psmid_" + ("err=" + impl_out["err"] if isinstance(impl_out, dict) and "err" in impl_out else "ok")]
+        f = ["kind=merge", "evidence_files=%d" % len(case["evidence"]), "result_files=%d" % len(case["results"])]
         if isinstance(impl_out, dict) and "err" in impl_out:
             f.append("err=" + impl_out["err"])
             return f
@@ -457,7 +494,7 @@ class P(Prop):
                 for row in r["rows"][1:]:
                     m = self.PSMID.match(row[names.index(idn)]) if names.index(idn) < len(row) else None
                     if m and names.index("peptide") < len(row):
-                        keys.append((m.group(1), int(m.group(2)), row[names.index("peptide")].replace("[42]", "(ac)").replace("M[16]", "M(ox)")))
+                        keys.append((m.group(1) or "", int(m.group(2)), row[names.index("peptide")].replace("[42]", "(ac)").replace("M[16]", "M(ox)")))
             if any(re.search(r"_[+0][0-9]+_[^_]*_[^_]*$", row[names.index(idn)]) for row in r["rows"][1:] if idn and names.index(idn) < len(row)):
                 f.append("result_scan_nonstandard_spelling")
             f.append("fmt=" + ("native" if idn == "psmid" else "mokapot" if idn == "specid" else "unknown") + r["ext"])
@@ -470,6 +507,12 @@ class P(Prop):
     def shrink(self, case):
         import copy
 
+        if "psmid" in case:
+            parts = case["psmid"].split("_")
+            for i in range(len(parts)):
+                if len(parts) > 1:
+                    yield {"psmid": "_".join(parts[:i] + parts[i + 1 :]), "peptide": case["peptide"]}
+            return
         ev, res = case["evidence"], case["results"]
         for i in range(len(ev)):
             if len(ev) > 1:
